@@ -56,7 +56,7 @@ def digest(x):
     if hasattr(x, "shadow"):
         return ["f", repr(float(x.shadow()))]
     if isinstance(x, dict):
-        return {str(k): digest(v) for k, v in x.items()}
+        return {str(k): digest(v) for k, v in x.items() if not str(k).startswith("_")}
     if isinstance(x, (list, tuple)):
         return [digest(v) for v in x]
     tn = type(x).__module__
@@ -195,8 +195,37 @@ def run_symbolic(spec):
                 rec["digest"] = {"exc": exc}
                 vname = scn.on_raise(exc, fnm, line) if hasattr(scn, "on_raise") else None
                 if vname:
-                    res["violations"].append(dict(name=vname, env=[str(v) for v in leaf.env], meta={"exc": exc, "where": [file, fnm, line]},
-                                                  kind="raise", cell=[str(v) for v in leaf.env]))
+                    env = list(leaf.env)
+                    keep = True
+                    if hasattr(scn, "raise_formula"):
+                        # the raise is a violation only where this (z3) condition holds inside the cell
+                        f = scn.raise_formula(tr)
+                        if f is not None:
+                            res["obligations"] += 1
+                            pc = tr.pc_z3()
+                            r, m = tr.check(*pc, f, timeout_ms=10000)
+                            res["ob_queries"][r] = res["ob_queries"].get(r, 0) + 1
+                            rec["obl"] = [[vname, r]]
+                            if r == "unsat":
+                                res["discharged"] += 1
+                                keep = False
+                                rec["excused"] = True
+                            elif r == "unknown":
+                                res["undecided"] += 1
+                                keep = False
+                            else:
+                                from symx.explore import simplify_env as _se
+                                env = tr.model_env(m, len(names))
+                                env = _simplify_witness(tr, leaf, env, f, nexp, m)
+                    if keep:
+                        res["violations"].append(dict(name=vname, env=[str(v) for v in env], meta={"exc": exc, "where": [file, fnm, line]},
+                                                      kind="raise", cell=[str(v) for v in leaf.env]))
+            elif leaf.kind == "budget" and hasattr(scn, "on_budget"):
+                rec["why"] = str(leaf.exc)[:160]
+                vname = scn.on_budget()
+                if vname:
+                    res["violations"].append(dict(name=vname, env=[str(v) for v in leaf.env], meta={"why": rec["why"]}, kind="hang",
+                                                  cell=[str(v) for v in leaf.env], timeout=getattr(scn, "hang_timeout", 30)))
             else:
                 rec["why"] = str(leaf.exc)[:160]
             res["leaves"].append(rec)
@@ -207,7 +236,7 @@ def run_symbolic(spec):
             names, fn, domain=dom, on_leaf=on_leaf,
             max_paths=spec.get("max_paths", 20000), time_budget=spec.get("time_budget"),
             raw=getattr(scn, "raw", False), timeout_ms=getattr(scn, "timeout_ms", 10000),
-            max_decisions=getattr(scn, "max_decisions", 20000),
+            max_decisions=getattr(scn, "max_decisions", 20000), path_timeout=getattr(scn, "path_timeout", 120),
         )
         res["stats"] = stats
         res["functions"] = sorted(entered)
@@ -273,11 +302,15 @@ def run_replay(task):
         return dict(spec=task.get("spec"), ok=False, error="".join(traceback.format_exception(type(e), e, e.__traceback__))[-3000:])
 
 
+class ReplayTimeout(Exception):
+    pass
+
+
 def _plain_run(scn, xs, timeout=None):
     import signal
 
     def handler(signum, frame):
-        raise TimeoutError("plain replay timed out")
+        raise ReplayTimeout("plain replay timed out")
 
     old = signal.signal(signal.SIGALRM, handler)
     signal.alarm(int(timeout or getattr(scn, "replay_timeout", 60)))
